@@ -208,6 +208,10 @@ func (f *flush) addBaseTimer(name string, timer gostatsd.Timer) {
 }
 
 func (f *flush) addHistogramTimer(name string, timer gostatsd.Timer) {
+	if len(timer.Histogram) == 0 {
+		// timer-histogram-limit 0 leaves a histogram timer without buckets: there is nothing to emit
+		return
+	}
 	writeName(f.writer, name, timer.Tags)
 
 	var sb strings.Builder
